@@ -38,6 +38,9 @@ STORE_CORE = dict(MaxNodes=12, MaxArr=3, MaxHandles=3, Names="<-NamesCore", Idxs
 STORE_MERGE = dict(MaxNodes=14, MaxArr=3, MaxHandles=3, Names="<-NamesMerge", Idxs="<-IdxsMerge", SetVals="<-ValsCore",
                    Frags="<-FragsMerge", MergePols="<-PolsAll", SetChildNames="<-SCNames", SweepAddrs="<-AddrsMerge",
                    Roots2="<-RootB", WithEmbed=True, WithParent=True)
+STORE_CHURN = dict(MaxNodes=6, MaxArr=3, MaxHandles=2, Names="<-NamesChurn", Idxs="<-IdxsChurn", SetVals="<-ValsCore",
+                   Frags="<-NoFrags", MergePols="<-PolsTwo", SetChildNames="<-NoNames", SweepAddrs="<-AddrsChurn",
+                   Roots2="<-RootB", WithEmbed=False, WithParent=False)
 CTX_DEVS = ["DetachKeepsCtx", "SetCtxOnlyIfEmpty", "CopyKeepsStoredFld"]
 
 
@@ -55,6 +58,8 @@ def store_stages(tier, comps, trace_comps, mc_inv, mc_props, refute, only_devs, 
     if gen_core:
         st.append(GEN("Gen_Store", core, "store", replay_args=["--components", comps], label="Gen_Store/core",
                       only_devs=only_devs, min_cases=20000))
+        st.append(GEN("Gen_Store", dict(STORE_CHURN, MaxOps=5 if q else 6), "store", replay_args=["--components", comps],
+                      label="Gen_Store/list-churn", only_devs=only_devs, min_cases=5000))
     st += [
         # the merge universe and the random sessions contain Parent(): its RESULT depends on the recorded
         # parent link, so all layers of the open ctx finding are needed there whatever the components are
@@ -82,7 +87,7 @@ def c15(tier, seed):
 def c10(tier, seed):
     st = store_stages(tier, "obs,at,path", "CompsC10", ["NoSharing"], ["SourceUntouchedProp"],
                       [("EmbedReparentsSource", ["SourceUntouchedProp"])], only_devs=None, mc_universe="merge",
-                      gen_core=False, merge_depth=(3, 4))
+                      gen_core=False, merge_depth=(3, 3))
     q = tier == "quick"
     u = "<-U_Tiny" if q else "<-U_Quick"
     st.append(GEN("Gen_Merge", dict(UA=u, UB=u, PolSet="<-Pols", FosSet="<-FosNone"), "merge",
@@ -171,7 +176,7 @@ def varexp_consts(tier, big=False):
 
 
 def varexp_gen(tier, label="Gen_VarExp/worlds", extra=()):
-    return GEN("Gen_VarExp", varexp_consts(tier), "varexp", replay_args=list(extra), label=label, min_cases=20000,
+    return GEN("Gen_VarExp", varexp_consts(tier), "varexp", replay_args=list(extra), label=label, min_cases=10000,
                timeout=3600)
 
 
@@ -183,7 +188,7 @@ def c02(tier, seed):
     return [
         MC("Gen_VarExp", VAR_MC, invariants=["NoSilentEmpty", "LookupOrder"], label="MC_VarExp/lookup-order"),
         varexp_gen(tier),
-        varexp_gen("quick", label="Gen_VarExp/late-binding", extra=["--split-merge"]),
+        varexp_gen("quick", label="Gen_VarExp/late-binding", extra=["--split-merge", "--every", "3" if tier == "quick" else "1"]),
     ]
 
 
